@@ -812,9 +812,21 @@ def size_of(d):
 NAMECH = LET + LET.upper() + "0123456789" + "__$./[]<>(): +=%&~^|{}@!#,;'`\\"
 
 
-def gen_name03(rng, used_lower, kind="x", bus=False, scalar_net=False):
-    """a sibling name: non-empty printable ASCII, case-insensitively distinct from `used_lower`
-    (case-only collisions are C17's sub-domain), outside the pinned / triggered sub-domains."""
+def sanitized_key(s):
+    """lower-cased image of make_valid's character fix: names with the same key get colliding
+    identifiers"""
+    t = "".join(c if (c.isalnum() and c.isascii()) else "_" for c in s)
+    if not (s[0].isalpha() and s[0].isascii()):
+        t = "&" + t
+    return t.lower()
+
+
+def gen_name03(rng, used, kind="x", bus=False, scalar_net=False):
+    """a sibling name: non-empty printable ASCII, outside the pinned / triggered sub-domains.
+    `used` : set of sanitized keys already taken, plus ("U", key) marks for keys taken by a name
+    with an upper-case letter.  Two siblings may share a key (identifier collision, resolved by
+    make_valid's _sdn_N_ suffix) only when neither contains an upper-case letter: collisions
+    involving upper case are C17's open sub-domain (case-sensitive conflict test)."""
     while True:
         r = rng.random()
         if r < 0.45:
@@ -828,17 +840,24 @@ def gen_name03(rng, used_lower, kind="x", bus=False, scalar_net=False):
             s = "".join(rng.choice(NAMECH) for _ in range(rng.randint(1, 9)))
         if not s or s[0] == "\\":
             continue
-        if s.lower() in used_lower:
+        key = sanitized_key(s)
+        has_upper = any(c.isupper() for c in s)
+        if s in used:
             continue
+        if key in used and (has_upper or ("U", key) in used):
+            continue
+        if key.endswith("_sdn_1_") or "_sdn_" in key:
+            # a name that already looks like a conflict suffix can collide with a generated one (C17)
+            if key in used:
+                continue
         if scalar_net and (name_is_indexed(s) or s.endswith("[")):
             continue
-        if bus and s.endswith("["):
-            pass        # bit names are  s[i]  : fine
         if bus and (not s[0].isalnum()) and s[-1].isalnum():
             continue    # identifier '&_…' not ending in '_' : sub-domain of edif.reader.amp_underscore_bus
-        if kind == "net" and s.endswith("[") and not bus:
-            continue
-        used_lower.add(s.lower())
+        used.add(s)
+        used.add(key)
+        if has_upper:
+            used.add(("U", key))
         return s
 
 
